@@ -318,7 +318,7 @@ func (j *journey) start(name string) error {
 		"vals":  j.vals,
 		"name":  name,
 		"mt":    HeaderList(j.mtrace),
-		"sibs":  sibExp,
+		"xsibs": sibExp,
 	}
 	j.emitRaw("Start", ev)
 	return nil
